@@ -402,3 +402,23 @@ def cp_on_plain_fixed_segment(regions, cid, p):
                     if i in (a, b) and rel[2] and g['segs'][a]['conn'] == cid and g['segs'][b]['conn'] == cid:
                         return True
     return False
+
+
+def sandwiched(regions, a, b):
+    """the failing pair (a, b) sits in a nudging-stage region that ended unsatisfied and whose generated constraints
+    contain a chain  fixed -> movable -> fixed  of positive gaps with the first fixed variable not left of the second
+    (infeasible for every positive separation: the processing order put a movable segment between two immovable
+    segments at the same position)"""
+    for g in regions:
+        if g['unify'] or not g['end'] or g['end']['sat']:
+            continue
+        conns = set(s['conn'] for s in g['segs'])
+        if a not in conns or b not in conns:
+            continue
+        vs, cs = g['vars'], g['cons']
+        for (l1, m, g1, e1) in cs:
+            if g1 > 0 and vs[l1][0] == 1 and vs[m][0] == 0:
+                for (m2, r2, g2, e2) in cs:
+                    if m2 == m and g2 > 0 and vs[r2][0] == 1 and vs[l1][1] >= vs[r2][1]:
+                        return True
+    return False
